@@ -4,8 +4,8 @@
 //! parameter, so the harness passes a scripted `RngCore` and explores ALL random streams by a
 //! depth-first search over scripts: a script is extended by one position (all grid values) as long
 //! as the call consumed more words than the script holds (`Script::draws`). The grid has
-//! max(6, characters + 1) cells, at least as many as any single draw has alternatives (<= 4 kinds,
-//! <= characters + 1 positions, <= 3 edit strings). Chains of edits thread the returned exclusion
+//! max(4, characters + 1) cells, at least as many as any single draw has alternatives (<= 4 kinds,
+//! <= characters + 1 positions, <= 3 edit strings), whatever the order of the draws. Chains of edits thread the returned exclusion
 //! set back in exactly as `corrupt_spelling` does.
 //! The oracle is the reference set of allowed results written from the statement (DESIGN 5/C15).
 use serde_json::{json, Value};
@@ -307,6 +307,10 @@ fn check(run: &mut Run, p: &Providers, st: &State, cfg: Config, cands: &[Cand], 
     if res.excl.iter().any(|i| *i >= new_len) {
         run.violation("exclusion-within-word", "", case(), format!("returned ({:?}, {:?}) but the new word has {new_len} characters", res.word, res.excl));
     }
+    // fast path: an allowed candidate with exactly this word and exclusion set
+    if cands.iter().any(|c| !c.touches_excluded && c.result == res) {
+        return (Some(res), draws);
+    }
     let same_word: Vec<&Cand> = cands.iter().filter(|c| c.result.word == res.word).collect();
     if same_word.is_empty() {
         run.violation("one-enabled-edit", "", case(), format!("returned word {:?} is neither the word nor the word with exactly one enabled edit offered by the providers", res.word));
@@ -324,11 +328,13 @@ fn check(run: &mut Run, p: &Providers, st: &State, cfg: Config, cands: &[Cand], 
 /// All random streams for one state: DFS over scripts. Returns the distinct results reached.
 fn explore(run: &mut Run, p: &Providers, grids: &[Vec<u64>], st: &State, cfg: Config, chain: &[State]) -> BTreeSet<State> {
     let cands = candidates(st, cfg);
-    let k = (refs::chars(&st.word, cfg.g).len() + 1).max(6);
+    // cells per draw: at least as many as any single draw can have alternatives
+    // (<= 4 kinds, <= characters + 1 positions, <= 3 edit strings)
+    let k = (refs::chars(&st.word, cfg.g).len() + 1).max(4);
     let grid = &grids[k.min(grids.len() - 1)];
     let mut reached = BTreeSet::new();
     let mut stack: Vec<Vec<u64>> = vec![vec![]];
-    let mut max_draws = 0;
+    let (mut max_draws, mut leaves) = (0, 0u64);
     while let Some(script) = stack.pop() {
         let (res, draws) = check(run, p, st, cfg, &cands, &script, chain);
         max_draws = max_draws.max(draws);
@@ -343,13 +349,14 @@ fn explore(run: &mut Run, p: &Providers, grids: &[Vec<u64>], st: &State, cfg: Co
             if draws > script.len() {
                 run.capped.get_or_insert(format!("a call consumed more than {MAX_DRAWS} random words; streams beyond that are not enumerated"));
             }
-            run.count("random streams (complete scripts)");
+            leaves += 1;
         }
         if let Some(r) = res {
             reached.insert(r);
         }
     }
-    run.count(&format!("draws per call = {max_draws}"));
+    run.count_n("random streams (complete scripts)", leaves);
+    run.count(&format!("states whose calls make at most {max_draws} draws"));
     reached
 }
 
@@ -395,9 +402,13 @@ fn main() {
         run.finish();
     }
     let max_len = run.pick(3, 4);
-    let max_chain = run.pick(2, 3);
+    // chain bound by the number of symbols of the start word: thorough explores chains of 3 edits
+    // from words of up to 3 symbols and chains of 2 from the 4-symbol words (cost)
+    let quick = run.quick();
+    let chain_bound = move |symbols: usize| if quick || symbols > 3 { 2 } else { 3 };
     let words = strings(&ALPHA, max_len);
-    let initial: HashSet<&str> = words.iter().map(|w| w.as_str()).collect();
+    // start word -> its chain bound
+    let initial: HashMap<&str, usize> = words.iter().map(|w| (w.as_str(), chain_bound(refs::chars(w, true).len()))).collect();
     let all = units(&words);
     if let Some(n) = run.describe_unit() {
         let u = &all[n as usize];
@@ -438,8 +449,8 @@ fn main() {
         }),
     );
     run.bounds.insert("full_delete".into(), json!("false and true (true only where delete is enabled)"));
-    run.bounds.insert("random_streams".into(), json!(format!("all: script DFS, grid of max(6, characters+1) evenly spaced words per draw, extended while the call consumes more words than the script holds (cap {MAX_DRAWS})")));
-    run.bounds.insert("max_chain_length".into(), json!(max_chain));
+    run.bounds.insert("random_streams".into(), json!(format!("all: script DFS, grid of max(4, characters+1) evenly spaced words per draw (>= the alternatives of any draw: <= 4 kinds, <= characters+1 positions, <= 3 edit strings), extended while the call consumes more words than the script holds (cap {MAX_DRAWS})")));
+    run.bounds.insert("max_chain_length".into(), json!(if quick { "2" } else { "3 from start words of up to 3 symbols, 2 from start words of 4 symbols" }));
     run.extra.insert(
         "rule".into(),
         json!("a unit is (word, use_graphemes, kinds); inside: providers x full_delete x every exclusion subset as start states; every state is explored under every random stream (one case = one edit_word call under one stream) and every distinct result is explored again with the returned exclusion set, up to the chain bound; a result state that is itself a start state of the enumeration (word over the alphabet within the length bound) is not re-explored because it is explored with the full chain bound in its own unit, and a state already explored at the same or a smaller depth in the unit is skipped; a case is non-trivial when the call changed the word or the exclusion set; hist 'reached' / 'allowed' sum the distinct results per explored state and the size of the reference set"),
@@ -454,6 +465,7 @@ fn main() {
             break;
         }
         let n = refs::chars(&u.word, u.g).len();
+        let max_chain = initial[u.word.as_str()];
         for provider in 0..PROVIDERS.len() {
             for full_delete in [false, true] {
                 if full_delete && u.kinds & 2 == 0 {
@@ -471,7 +483,8 @@ fn main() {
                         let mut queued: HashSet<State> = HashSet::new();
                         for (st, chain) in &frontier {
                             if depth > 1 {
-                                if initial.contains(st.word.as_str()) {
+                                // a start state of another unit, explored there at least as deep as here
+                                if initial.get(st.word.as_str()).map(|b| *b > max_chain - depth).unwrap_or(false) {
                                     run.count("chain states that are start states elsewhere (not re-explored)");
                                     continue;
                                 }
